@@ -11,6 +11,8 @@ Streams:
   direct     model-free reading of the final page: ids distinct across instances; the id a component
              printed from Component.id is the id of the marker that precedes it; an element carries
              id X iff it is at depth 0 of instance X's segment (computed from the markers and tags).
+  threads    two / three renders interleaved at every line of component.py by the deterministic scheduler
+             of C07: each render gives what it gives alone (the id reported is the id carried).
   depth      chains of components that are each other's only root, depth 50 / 500 (thorough: 2000),
              on the real code: the innermost element carries every id, no RecursionError.
 """
@@ -119,6 +121,50 @@ def run_uncapped(p):
         tplgen.Recorder.__init__.__defaults__ = (None, old)
 
 
+THREAD_GATED = ("django_components/component.py",)
+
+
+def run_threads(chk, n_programs, n_random):
+    """two or three renders interleaved at the lines of component.py (deterministic scheduler of C07): every render
+    gives what it gives alone — in particular the id a component reports from Component.id is the id its roots
+    carry.  Provider-free programs, empty template cache: the listed C07 findings stay out of this stream."""
+    from . import c07
+    import django_components.cache as DC
+    DC.template_cache = None
+    tplgen.patch_ids()
+    prof = dict(PROFILE, w_provide=0, w_inject=0, depth=2)
+    found = 0
+    for i in range(n_programs * 20):
+        if found >= n_programs:
+            break
+        r = core.rng(PROP, "threads", i)
+        isolated = r.random() < 0.5
+        progs = [c07.rename(tplgen.Gen(core.rng(PROP, "threads-prog-%d" % i, t), prof).program(isolated=isolated), "t%d" % t)
+                 for t in range(2 if i % 3 else 3)]
+        solo = c07.solo_outcomes(progs, isolated)
+        if any(o.startswith("ERR") for o, _ in solo):
+            continue
+        expected = [o for o, _ in solo]
+        found += 1
+        for j in range(n_random):
+            rr = core.rng(PROP, "threads-sched-%d" % i, j)
+            tplgen._counter[0] = 0
+            outs, residue, s = c07.run_schedule(progs, isolated, c07.sched.random_priorities(rr, rr.choice([0.02, 0.1, 0.5])),
+                                                rr.randrange(len(progs)), gated=THREAD_GATED)
+            if s.stuck or "STUCK" in outs:
+                chk.count("threads/stuck", 1)
+                continue
+            chk.count("threads", 1, validated=len(progs))
+            chk.nontrivial(("threads", i, j, tuple(outs)))
+            bad = [t for t in range(len(progs)) if outs[t] != expected[t]]
+            if bad:
+                chk.violation("impl-violates-spec", "threads", {"programs": progs, "isolated": isolated, "schedule": "random-%d" % j,
+                              "switch_trace": s.trace[:60]}, impl={"outcomes": outs, "alone": expected},
+                              note="interleaved with other renders, thread(s) %s report / carry other ids than alone; switches: %s || " % (
+                                  bad, s.trace[:12]) + " || ".join(l for p in progs for l in rc.describe(p)))
+                return
+
+
 def run(tier: str) -> int:
     chk = core.Check(PROP, tier, THEOREMS, "DESIGN.md §8 render pipeline / C14")
     chk.build_and_audit()
@@ -128,6 +174,7 @@ def run(tier: str) -> int:
     run_programs(chk, n)
     run_depth(chk, [3, 50, 500] if tier == "quick" else [3, 50, 500, 2000])
     run_depth(chk, [3, 1100] if tier == "quick" else [3, 50, 1100, 2000], looped=True)
+    run_threads(chk, 12 if tier == "quick" else 120, 6 if tier == "quick" else 12)
     chk.assumptions += [
         "templates produce well-nested elements (elements are AST nodes); no void / self-closing elements; "
         "set_html_attributes (Rust) is modelled on the token form and differentially tested here through the real render",
